@@ -24,6 +24,9 @@ HX = os.path.join(TARGET, "debug", "hx")
 MODEL = os.path.join(LEAN, ".lake", "build", "bin", "optrs-model")
 SCRATCH = "/var/tmp/optrs-verif-scratch"
 REPO = os.environ.get("OPTRS_REPO", "/repo")
+TIE_ASSUMPTION = ("the theorems quantify over every input of the MODEL; where the model is hand-written its tie to the code is the correspondence on the "
+                  "input classes listed under coverage, so a code change that acts only on inputs outside those classes (one size, one exact value, "
+                  "one file name, one call order no generator produces) is not seen until such a class is added (DESIGN 11.5, rounds 6 and 7)")
 ALLOWED_AXIOMS = {"propext", "Classical.choice", "Quot.sound"}
 
 sys.path.insert(0, os.path.join(VERIF, "translate"))
@@ -530,7 +533,7 @@ def finish(res, level, checker_cmd, rule, explanation=None):
         cov["discharged"] = 0
     ev = {
         "property_id": pid, "tier": res.tier, "seed": res.seed, "level": level, "coverage": cov,
-        "assumptions": res.assumptions + ["translator note: " + n for n in res.notes], "wall_s": round(res.wall(), 2), "violations": len(reported) + (1 if (res.broken and not reported) else 0),
+        "assumptions": res.assumptions + [TIE_ASSUMPTION] + ["translator note: " + n for n in res.notes], "wall_s": round(res.wall(), 2), "violations": len(reported) + (1 if (res.broken and not reported) else 0),
     }
     os.makedirs(os.path.join(VERIF, "evidence"), exist_ok=True)
     with open(os.path.join(VERIF, "evidence", f"{pid}.json"), "w", encoding="utf-8") as f:
